@@ -34,6 +34,7 @@ Step ==
           \/ (e.a = "OptStep" /\ OptStep)
           \/ (e.a = "Load" /\ Load)
           \/ (e.a = "ToDtype" /\ ToDtype(e.d))
+          \/ (e.a = "Copy" /\ Copy /\ res'.o = e.o)
        \* logged projection of the real object's state after the step
        /\ <<cw'.filled, ci'.filled, cl'.filled>> = e.occ
        /\ training' = e.tr /\ usingCache' = e.uc /\ dt' = e.dt
